@@ -255,6 +255,10 @@ def _pump_shard(args):
     return res
 
 
+WITNESSES = ["<b><frameset></frameset></html> ", "<svg><select><foreignObject><table></table>", "<table><svg><html>",
+             "<math><html><annotation-xml encoding='text/html'><select></select>"]
+
+
 def run(run):
     quick = run.tier == "quick"
     only = os.environ.get("VERIF_PARTS", "word,soup,pump").split(",")
@@ -323,6 +327,13 @@ def run(run):
                     classes[cls2] = engine.Violation(H, {"kind": "pump", "container": None}, case, "a tree", j[0], j[0], cls2)
         run.set("pump_depth", n)
         run.sample({"pump": ["<div>", "<rt>", n, "</div>"]})
+    # witness words outside the explored depth (reported by a sub-agent while seeding C03)
+    for text in WITNESSES:
+        run.add("witness_words")
+        j = judge(text, None, False)
+        if j is not None:
+            classes["witness:" + j[1]] = engine.Violation(H, {"kind": "word", "theme": "witness", "container": None, "scripting": False}, text,
+                                                          "a tree with the document skeleton", j[0], j[0], "witness:" + j[1])
     for v in classes.values():
         run.violation(v)
     if "states" not in run.cov:
